@@ -175,6 +175,16 @@ func copyFile(fs FS, name string, info fs.FileInfo, sourceFile File) (err error)
 		return err
 	}
 
+	// the owner is changed before the mode, because changing the owner
+	// of a file clears its setuid and setgid bits.
+	// might cause a windows error that this function is not implemented by the OS
+	// in a unix fassion
+	// permission and not implemented errors are ignored
+	err = ignoreChownError(chown(info, name, fs))
+	if err != nil {
+		return err
+	}
+
 	newFileInfo, err := fs.Lstat(name)
 	if err != nil {
 		return err
@@ -196,14 +206,6 @@ func copyFile(fs FS, name string, info fs.FileInfo, sourceFile File) (err error)
 		if err != nil {
 			return err
 		}
-	}
-
-	// might cause a windows error that this function is not implemented by the OS
-	// in a unix fassion
-	// permission and not implemented errors are ignored
-	err = ignoreChownError(chown(info, name, fs))
-	if err != nil {
-		return err
 	}
 
 	return nil
